@@ -100,6 +100,36 @@ func specOpenBind(permKey, permKeyID, msg []byte) (bound, string) {
 	return b, ""
 }
 
+// dirty runs other exported users of package-level pooled state (hashers, buffers, gzip writers) with
+// unrelated data, in a PRNG-chosen mix, right before the call under test: a derivation function must not
+// depend on what ran before it in the same process.
+var dirtyRng = hx.NewRand(0xD1127)
+
+func dirty() {
+	r := dirtyRng
+	start := r.Intn(5)
+	for i := 0; i < 5; i++ { // every user once, rotating order
+		switch (start + i) % 5 {
+		case 0:
+			_ = crypto.SHA256(r.Bytes(r.Intn(200)))
+		case 1:
+			_ = crypto.SHA256(r.Bytes(r.Intn(70)), r.Bytes(1+r.Intn(70)))
+		case 2:
+			var k crypto.Key
+			copy(k[:], r.Bytes(256))
+			_ = k.ID()
+			_ = crypto.MessageKeyV1(r.Bytes(r.Intn(100)))
+		case 3:
+			var k crypto.Key
+			copy(k[:], r.Bytes(256))
+			_ = crypto.MessageKey(k, r.Bytes(16*r.Intn(8)), crypto.Side(r.Intn(2)))
+		default:
+			_, _ = crypto.RandInt128(r)
+			_ = crypto.SHA256(nil)
+		}
+	}
+}
+
 // ---------- cases ----------
 type tc struct {
 	Kind    int     `json:"kind"`
@@ -147,6 +177,7 @@ func bl(bs ...[]byte) string {
 
 func run(c *hx.Ctx, t tc) {
 	c.Obs.Evaluations++
+	dirty()
 	var key crypto.Key
 	copy(key[:], t.Key)
 	var mk bin.Int128
@@ -244,6 +275,7 @@ func run(c *hx.Ctx, t tc) {
 // runQuiet: kinds 0 (MessageKey) and 2 (MessageKeyV1) under the specification oracle only (no Coq case).
 func runQuiet(c *hx.Ctx, t tc) {
 	c.Obs.Evaluations++
+	dirty()
 	var key crypto.Key
 	copy(key[:], t.Key)
 	p, pv := hx.Recover(func() {
@@ -366,6 +398,6 @@ func main() {
 	for _, l := range []int{0, 15, 16, 23} {
 		run(c, tc{Kind: 6, Key: genKey(r), KeyID: r.Bytes(8), Rnd: r.Bytes(l), MsgID: 5, Inner: []int64{1, 2, 3, 4, 5}})
 	}
-	c.Obs.Rule = "each exported derivation function of crypto/keys.go, kdf_v1.go, keys_old.go, key.go (ID) and EncryptBindMessage on random/structured 2048-bit keys, both directions, plaintexts 0..176 bytes plus lengths around hash-block multiples up to 512 through Coq, and EVERY plaintext length 0..2200 and +-33 around 4096..65536 (both directions) under the Go specification oracle; oracle = a transcription of the specification formulas in Go (substr/+) and a specification-side decryption of the bind message; every case is also evaluated in Coq against both the Go-shaped model and the Coq transcription of the specification; non-trivial = distinct (function, direction, input) case"
+	c.Obs.Rule = "before every call a PRNG-chosen mix of other users of the package's pooled state (crypto.SHA256 with 0..2 parts, Key.ID, MessageKeyV1, MessageKey, RandInt128) runs with unrelated data, so that state carried between calls through pools shows up; each exported derivation function of crypto/keys.go, kdf_v1.go, keys_old.go, key.go (ID) and EncryptBindMessage on random/structured 2048-bit keys, both directions, plaintexts 0..176 bytes plus lengths around hash-block multiples up to 512 through Coq, and EVERY plaintext length 0..2200 and +-33 around 4096..65536 (both directions) under the Go specification oracle; oracle = a transcription of the specification formulas in Go (substr/+) and a specification-side decryption of the bind message; every case is also evaluated in Coq against both the Go-shaped model and the Coq transcription of the specification; non-trivial = distinct (function, direction, input) case"
 	c.Finish()
 }
